@@ -33,12 +33,16 @@ class _K:
     __hash__ = None
 
 
-def check_partial_fidelity(args: Tuple[int, ...], kw: Dict[str, int], x: int) -> bool:
+def check_partial_fidelity(args: Tuple[int, ...], has_a: bool, has_b: bool, va: int, vb: int, x: int) -> bool:
     """
-    pre: len(args) <= 3 and len(kw) <= 2
-    pre: all(k.isidentifier() and len(k) <= 2 for k in kw)
+    pre: len(args) <= 3
     post: _
     """
+    kw = {}
+    if has_a:
+        kw["a"] = va
+    if has_b:
+        kw["key"] = vb
     p = functools.partial(_f, *args, **kw)
     fn, a = red._reduce_partial(p)
     q = fn(*a)
